@@ -68,6 +68,10 @@ CLAIMS = {
          "every update split and every output length (ref_refines; Ok = no panic incl. the stack bound); EVERY entry of "
          "test_vectors.json (translated to Coq on each run: 35 lengths x 3 modes x 131 bytes, stated key/context/pattern) "
          "equals the specification, proved inside the kernel by vm_compute; hence reference = spec = Rust model (C01). "
+         "Every function of reference_impl.rs is TRANSLATED statement by statement (gen/GenRefImpl.v, gen/GenRefImplLoops.v: "
+         "while loops on explicit fuel, chunks_mut loops, the CV stack with its bounds asserts) and proved equal to the model "
+         "(C15_ref_src_*: simple loops at every fuel; fuel-threading functions with enough fuel, and OutOfFuel-or-equal at any "
+         "fuel), and the translated new/update/finalize composed equal the specification (C15_ref_src_run_spec). "
          "Correspondence: reference_impl::Hasher driven with splits and output lengths vs the extracted model.",
          "vm_compute is used for the test-vector equalities (a kernel conversion); reference constants translated from reference_impl.rs.",
          "Coq proof (refinement by induction + in-kernel evaluation of all published vectors) + correspondence"),
